@@ -18,7 +18,7 @@ MIN_NONTRIVIAL = {"quick": 500, "thorough": 5000}
 REQUIRED_FUNCTIONS = ["listener.py:BlackbirdListener.exitExpressionvar", "listener.py:BlackbirdListener.exitArrayvar", "auxiliary.py:_expression"]
 FUNCTIONS = REQUIRED_FUNCTIONS
 REQUIRED_TAGS = ["scalar:int", "scalar:float", "scalar:complex", "scalar:bool", "scalar:str", "array:int", "array:float", "array:complex",
-                 "array-shape", "array-element-param", "expr:arrayidx", "neg:ragged", "neg:ragged-size-preserving", "neg:shape", "neg:shape-transposed"]
+                 "array-shape", "array-element-param", "expr:arrayidx", "neg:ragged", "neg:ragged-size-preserving", "neg:shape", "neg:shape-transposed", "neg:shape-other-rank"]
 ASSUMPTIONS = ["layout model of the reference interpreter (DESIGN Appendix A rules 5 and 6)",
                "for negative cases any exception counts as 'rejected'"]
 
@@ -106,6 +106,10 @@ def build_negative(rng, g):
         tag.append("neg:shape")
         if sh[0] * sh[1] == rows * cols:
             tag.append("neg:shape-transposed")
+        if rng.random() < 0.2:
+            # a declared shape with one or three numbers (the first two may even agree with the written rows and columns)
+            shape = rng.choice(["[%d, %d, %d]" % (rows, cols, rng.choice([1, 2])), "[%d]" % (rows * cols), "[%d, %d, 1, 1]" % (rows, cols)])
+            tag[:] = ["neg:shape", "neg:shape-other-rank"]
     lines.append("%s array %s%s =" % (vt, nm, shape))
     for L in lens:
         els = []
